@@ -188,7 +188,12 @@ func dischargeAll(obls []*Obligation, timeoutS int, workers int) {
 					bump("syntactic")
 					continue
 				}
-				a := runQuery(o.query(), timeoutS, true)
+				q := o.query()
+				if pat := os.Getenv("GOVC_SAVEQ"); pat != "" && strings.Contains(o.Name+" "+o.Func+"/"+o.Kind, pat) {
+					os.MkdirAll("/tmp/govc-q", 0o755)
+					os.WriteFile("/tmp/govc-q/"+sanitize(o.Func+"_"+o.Kind+"_"+o.Pos)+".smt2", []byte(q+"(check-sat)\n"), 0o644)
+				}
+				a := runQuery(q, timeoutS, true)
 				o.Answer = &a
 			}
 		}()
